@@ -18,7 +18,7 @@ func init() {
 		Run:    run,
 		Replay: replay,
 		Rule: "E1 over operator chains: every chain o1 op1 o2 ... of the bounded length over all 13 binary operators ('|' between paths), 6 operand kinds and every placement of unary minus (0-3 repetitions per operand in 2-chains, with and without blanks); the reference XPath 1.0 parser produces the fully parenthesised form; original and parenthesised form are compiled and run by the real code and must give the same PrintMachine() listing and the same result, and the result must equal the reference value of the reference AST. " +
-			"Whitespace: for every chain of 3 operands, every token boundary x {removed, blank, tab+newline+blank, CR}, one boundary at a time and all at once (two at a time in the thorough tier); removal only where the reference tokenizer re-lexes the same tokens. Non-trivial = the chain mixes at least two precedence levels or repeats a non-associative-looking operator (-, div, mod, relational, equality).",
+			"Whitespace: for every chain of 3 operands, every token boundary x {removed, blank, tab+newline+blank, CR}, one boundary at a time, all at once, and all removed except one (two at a time in the thorough tier); additionally all of this for 2-operand chains over one-character names, one-digit numbers, literals with a leading blank and short paths; removal only where the reference tokenizer re-lexes the same tokens. Non-trivial = the chain mixes at least two precedence levels or repeats a non-associative-looking operator (-, div, mod, relational, equality).",
 		Bound: map[string]string{
 			"quick":    "chains of 3 operands over 6 operand kinds x 8 unary-minus placements; chains of 4 numeric operands x 16 placements; whitespace variants of all 3-chains over 2 operand kinds; chains inside one function argument",
 			"thorough": "additionally chains of 5 operands (2 operand kinds), 4-chains over 3 operand kinds, two whitespace boundaries at a time",
@@ -287,6 +287,21 @@ func (r *runner) whitespace(src string, pairs bool) {
 		}
 		try(s, "all")
 	}
+	// everything removed except one boundary (and except two in the pairs mode)
+	for i := range canon {
+		for _, w := range wsVariants[1:] {
+			s := make([]string, len(canon))
+			s[i] = w
+			try(s, "all-but-one")
+			if pairs {
+				for j := i + 1; j < len(canon); j++ {
+					s2 := append([]string{}, s...)
+					s2[j] = " "
+					try(s2, "all-but-two")
+				}
+			}
+		}
+	}
 	// leading and trailing whitespace
 	for _, w := range wsVariants[1:] {
 		v := w + base + w
@@ -383,7 +398,22 @@ func run(c *engine.Ctx) {
 			}
 		}
 	}
-	for _, src := range []string{"/ a / b [ k = 'x' ] / c", "current ( ) / .. / x", "p:a / p:* / .. / . ", "a [ k = 1 ] [ j = 2 ]", "concat ( 'a' , \"b\" ) = 'ab'", "n5 * 2", "* * *", "div div div", "a | b"} {
+	// one-character names, one-digit numbers and literals with a leading blank next to '/', '<', '>', '-'
+	for _, o := range ops {
+		for _, a := range []string{"/ a / b", "a", "1", "' x'", "/ a"} {
+			for _, b := range []string{"- 1", "a", "' x'", "/ a", "1", "b - 1"} {
+				src := a + " " + o + " " + b
+				if c.Expired() {
+					return
+				}
+				if c.Owns("ws:" + src) {
+					r.whitespace(src, true)
+				}
+			}
+		}
+	}
+	for _, src := range []string{"/ a / b - 1", "/ a / b and c", "1 < a or b", "a / b - 1 < c", "/ a / b [ k = 1 ] - 1",
+		"/ a / b [ k = 'x' ] / c", "current ( ) / .. / x", "p:a / p:* / .. / . ", "a [ k = 1 ] [ j = 2 ]", "concat ( 'a' , \"b\" ) = 'ab'", "n5 * 2", "* * *", "div div div", "a | b"} {
 		if c.Owns("ws:" + src) {
 			r.whitespace(src, true)
 		}
